@@ -297,14 +297,14 @@ def large_cases(tier):
                       mask=None, fill=None, attrs={})]
         fs = dict(dims=dims, vars=vars_, gattrs={'title': 'large'})
         per = {
-            't': [['slice', [12, 44, None]], ['slice', [1, None, 2]],
+            't': [['slice', [12, nt - 4, None]], ['slice', [1, None, 2]],
                   ['slice', [None, None, -1]], ['int', 5], ['int', -1],
-                  ['list', [3, 0, 2, 2, 1] + list(range(47, 10, -1))],
-                  ['list', list(range(2, 46))]],
-            'y': [['slice', [2, 75, None]], ['slice', [None, None, -1]],
-                  ['list', list(range(79, 3, -1)) + [0, 0]]],
+                  ['list', [3, 0, 2, 2, 1] + list(range(nt - 1, 10, -1))],
+                  ['list', list(range(2, nt - 2))]],
+            'y': [['slice', [2, ny - 5, None]], ['slice', [None, None, -1]],
+                  ['list', list(range(ny - 1, 3, -1)) + [0, 0]]],
             'x': [['slice', [3, None, None]], ['slice', [None, -2, 1]],
-                  ['list', [5, 1] + list(range(10, 88))]]}
+                  ['list', [5, 1] + list(range(10, nx - 2))]]}
         for d, sels in per.items():
             for s1 in sels:
                 yield dict(file=fs, sel=[[d] + s1], newdims=None, large=1)
